@@ -35,6 +35,19 @@ for k in kf:
     what = k["what"]
     what = re.sub(r"^fixed: property=\S+ \S+ ", "", what)
     out += "| %s | %s | %s | %s |\n" % (k["id"], k["property"], ("fixed " + k.get("commit", "")) if k["status"] == "fixed" else "known finding", what.replace("|", "\\|")[:600])
+# seeded changes (independent sub-agents; confirmed by tools/confirm_seeded.py)
+sd = os.path.join(V, "seeded")
+if os.path.isdir(sd):
+    out += "\n| seeded change | prop | existing suite with the change | demonstration (unchanged / changed) | our check (quick tier, seed 0) | what the change is |\n|---|---|---|---|---|---|\n"
+    for d in sorted(os.listdir(sd)):
+        mp = os.path.join(sd, d, "meta.json")
+        if not os.path.isfile(mp): continue
+        m = json.load(open(mp))
+        et = m.get("existing_tests") or {}
+        suite = ("builds; %s/%s test executables pass" % ((et.get("total") or 0) - (et.get("failed") or 0), et.get("total"))) if et else ("does not build" if m.get("builds_with_change") is False else "-")
+        demo = m.get("demo_verdict") or ("see meta.json" if m.get("demo") else "-")
+        what = m.get("what", "")
+        out += "| %s | %s | %s | %s | %s | %s |\n" % (d, m["property"], suite, demo, m.get("final_verdict") or m["check"]["verdict"], what.replace("|", "\\|")[:300])
 if "--write" in sys.argv:
     d = open(os.path.join(V, "DESIGN.md")).read()
     a, b = "<!-- STATUS-TABLE-BEGIN -->", "<!-- STATUS-TABLE-END -->"
